@@ -7,7 +7,7 @@ import ast
 from typing import List, Optional, Tuple
 
 from ..cfg import analysis, FuncAnalysis, Node, N, E, branch_has, branch_atoms
-from ..lib import prov, Origin, PARSE_METHODS
+from ..lib import path_fact_sets, prov, Origin, PARSE_METHODS
 from ..model import AnalysisError, FuncInfo, call_attr, call_name, dotted, kwarg, unparse, walk_shallow, norm_stmt, names_in
 
 K_DICT_MUTATORS = ["__setitem__", "__delitem__", "__ior__", "clear", "pop", "popitem", "setdefault", "update"]
@@ -167,7 +167,24 @@ def r07c(run, S):
         fa = analysis(f)
         for n, c, kind in raw_removals(fa):
             total += 1
-            facts = _facts(fa, n)
+            all_msgs = []
+            for facts in path_fact_sets(fa, n, ("field", "deleter", "immutable", "is_required")):
+                all_msgs += _removal_gaps(fa, f, n, kind, facts)
+            msgs = sorted(set(all_msgs))
+            ok = not msgs
+            run.check("R07c", f, f"raw removal `{unparse(c)[:60]}` is dominated by its guards", ok,
+                      construct=f"unguarded removal {unparse(c)[:80]}",
+                      message=f"{S.name}.{name}: `{unparse(c)}` is not dominated by " + " and ".join(msgs),
+                      necessity="a required or immutable field can be removed from a validated instance",
+                      node=c)
+    run.floor("R07c", "raw removals in Schema mutators", total, 4)
+    _r07c_generated(run)
+
+
+def _removal_gaps(fa, f, n, kind, facts) -> List[str]:
+    """the guards missing on one class of paths reaching the raw removal at n"""
+    if True:
+        if True:
             field_known = ("field" in f.params) or any(a == "not field" and not p for a, p in facts) \
                 or any(a == "field" and p for a, p in facts)
             no_field = ("not field", True) in facts or ("field", False) in facts
@@ -184,7 +201,9 @@ def r07c(run, S):
                     body_ok = False
                     for lp in loops:
                         tests = [unparse(x.test) for x in walk_shallow(lp.stmt) if isinstance(x, ast.If)
-                                 and any(isinstance(b, ast.Raise) for b in x.body)]
+                                 and any(isinstance(b, ast.Raise) or (type(b).__name__ == "InlineBlock"
+                                                                      and getattr(b, "tail", None) == "raise")
+                                         for b in x.body)]
                         if any("immutable" in t for t in tests) and any("is_required" in t for t in tests):
                             body_ok = True
                     if not body_ok:
@@ -196,13 +215,10 @@ def r07c(run, S):
                         msgs.append("the field-immutable check")
                     if not any(a.startswith("field.is_required(") and not p for a, p in facts):
                         msgs.append("the is_required check")
-            ok = not msgs
-            run.check("R07c", f, f"raw removal `{unparse(c)[:60]}` is dominated by its guards", ok,
-                      construct=f"unguarded removal {unparse(c)[:80]}",
-                      message=f"{S.name}.{name}: `{unparse(c)}` is not dominated by " + " and ".join(msgs),
-                      necessity="a required or immutable field can be removed from a validated instance",
-                      node=c)
-    run.floor("R07c", "raw removals in Schema mutators", total, 4)
+            return msgs
+
+
+def _r07c_generated(run):
     # attribute-based base class: the generated deleter
     d = run.repo.func("utype.parser.cls", "ClassParser.make_deleter.deleter")
     da = analysis(d)
@@ -212,9 +228,9 @@ def r07c(run, S):
              and any("__dict__" in unparse(t) for t in n.ast.targets)]
     run.floor("R07c", "removals in the generated attribute deleter", len(pops), 1)
     for n, c in pops:
-        facts = _facts(da, n)
-        ok = any("immutable" in a and not p for a, p in facts) and any(
+        ok = all(any("immutable" in a and not p for a, p in facts) and any(
             a.startswith("field.is_required(") and not p for a, p in facts)
+            for facts in path_fact_sets(da, n, ("immutable", "is_required")))
         run.check("R07c", d, f"`{unparse(c)[:60]}` is dominated by immutable and is_required checks", ok,
                   construct=f"unguarded removal {unparse(c)[:80]}",
                   message=f"generated deleter: `{unparse(c)}` is not dominated by the immutable and is_required checks",
@@ -251,22 +267,15 @@ def r07d(run, S):
 
 
 def r07e(run, S):
-    # (1) handle_error honours force_error
-    h = run.repo.func("utype.parser.options", "RuntimeContext.handle_error")
-    ha = analysis(h)
-    reads = False
-    for n in ha.cfg.nodes:
-        if n.kind == "stmt" and isinstance(n.ast, ast.Raise):
-            for b in ha.facts.branch_facts(n):
-                if b.polarity and isinstance(b.test, ast.BoolOp) and isinstance(b.test.op, ast.Or):
-                    if any(unparse(v) == "self.force_error" for v in b.test.values):
-                        reads = True
-                elif branch_has(b, "self.force_error", True):
-                    reads = True
-    run.check("R07e", h, "handle_error raises immediately when the context was created with force_error=True", reads,
+    # (1) handle_error honours force_error - decided on the handle_error decision table (c10.context_tables)
+    from . import c10 as _c10
+    h, _g, rows_h, _r = _c10.context_tables(run)
+    w = _c10._handle_error_mismatches(rows_h).get("force_error")
+    run.check("R07e", h, "handle_error raises immediately when the context was created with force_error=True", w is None,
               construct="force_error is never consulted",
-              message="RuntimeContext.handle_error never reads self.force_error: contexts created with "
-                      "force_error=True (attribute / item setters) still swallow errors when collect_errors is on",
+              message="RuntimeContext.handle_error does not raise at once for a context created with force_error=True "
+                      "(attribute / item setters): such contexts still swallow errors when collect_errors is on"
+                      + (f": for [{w[0]}] it {w[1]!r}, expected: {w[2]}" if w else ""),
               necessity="under Options(collect_errors=True), `inst.b = 'xx'` records the error in a throw-away "
                         "context and stores the <unprovided> sentinel")
     # (2) owners: create a context, hand it to a parse call, must force errors and test the sentinel before storing
@@ -522,3 +531,8 @@ def check(run):
     from . import c05
     run.rules_run.append("R05i")
     run.rule(c05.r05i, run)
+    # shared with C13: `is_required` (which guards every removal, R07c) asks always_no_input; the static predicate must agree
+    # with the dynamic one on every value-independent declaration, or a required field stops being required
+    from . import c13
+    run.rules_run.append("R13e")
+    run.rule(c13.r13e, run)
